@@ -102,6 +102,30 @@ func checkString(s string) {
 
 var alphabet = []byte{'a', 'z', 0xC3, 0xA9, 0xE2, 0x82, 0xAC, 0xF0, 0x9F, 0xFF}
 
+// boundary bytes of the UTF-8 encoding: every one of them appears at every position of short strings
+var boundary = []byte{0x00, 0x7F, 0x80, 0x81, 0xBF, 0xC0, 0xC1, 0xC2, 0xDF, 0xE0, 0xED, 0xEF, 0xF0, 0xF4, 0xF5, 0xFE, 0xFF, 0xA0, 0x90, 0x8F, 0x9F}
+
+func boundaryStrings() {
+	// all strings of length <= 2 over ALL 256 byte values
+	for a := 0; a < 256; a++ {
+		checkString(string([]byte{byte(a)}))
+		for b := 0; b < 256; b++ {
+			checkString(string([]byte{byte(a), byte(b)}))
+			res.Count("strings_all_bytes_len2", 1)
+		}
+	}
+	// all strings of length 3 and 4 over the boundary bytes, embedded between ASCII
+	for _, a := range boundary {
+		for _, b := range boundary {
+			for _, c := range boundary {
+				checkString(string([]byte{a, b, c}))
+				checkString(string([]byte{'x', a, b, c, 'y'}))
+				res.Count("strings_boundary_len3", 2)
+			}
+		}
+	}
+}
+
 func allStrings(maxLen int) {
 	buf := make([]byte, 0, maxLen)
 	var rec func(n int)
@@ -671,6 +695,7 @@ func main() {
 		maxStr, maxSl, maxMap, nRandStr, nRandMap = 6, 7, 6, 200000, 20000
 	}
 	allStrings(maxStr)
+	boundaryStrings()
 	randomStrings(rng, nRandStr)
 	for n := -3; n <= 64; n++ {
 		checkInt(n)
